@@ -54,7 +54,7 @@ type fkEvent struct {
 	Idx   int     `json:"idx"`
 	Count int     `json:"count"`
 	// W3: observables the Coq event type has no field for (see fkCursorBlk, fkRecorder.ProcessBlock)
-	CStep int `json:"cstep,omitempty"`          // the CURSOR's step (Step above is the event's: ForkableObject.Step())
+	CStep int `json:"cstep,omitempty"` // the CURSOR's step (Step above is the event's: ForkableObject.Step())
 	Flags int `json:"flags,omitempty"` // fkFlag* bits: what was handed to the handler is not what was fed
 }
 
@@ -75,6 +75,7 @@ func fkCursorBlk(c *bstream.Cursor, step bstream.StepType) fkRef {
 	}
 	return fkRefOf(c.Block)
 }
+
 type fkLook struct {
 	AllIDs  []uint64   `json:"all_ids"`
 	Lowest  int64      `json:"lowest"` // -1 = panic
@@ -84,14 +85,14 @@ type fkLook struct {
 	ByHash  []bool     `json:"by_hash"`
 }
 type fkStepObs struct {
-	Events []fkEvent `json:"events"`
-	Result string    `json:"result"` // ok | handler | selfparent | panic | other
-	HeadOK bool      `json:"head_ok"`
-	Head   fkRef     `json:"head"`
-	HeadLib uint64   `json:"head_lib"`
-	HeadNum uint64   `json:"head_num"`
-	Look   *fkLook   `json:"look,omitempty"`
-	ErrText string   `json:"err_text,omitempty"` // W3: text of an error that is not (a wrapper of) the handler's error value
+	Events  []fkEvent `json:"events"`
+	Result  string    `json:"result"` // ok | handler | selfparent | panic | other
+	HeadOK  bool      `json:"head_ok"`
+	Head    fkRef     `json:"head"`
+	HeadLib uint64    `json:"head_lib"`
+	HeadNum uint64    `json:"head_num"`
+	Look    *fkLook   `json:"look,omitempty"`
+	ErrText string    `json:"err_text,omitempty"` // W3: text of an error that is not (a wrapper of) the handler's error value
 }
 type fkObs struct {
 	Steps []fkStepObs `json:"steps"`
@@ -152,7 +153,10 @@ func fkOptions(in *fkInput) []forkable.Option {
 	return opts
 }
 
-type fkTok struct{ id string; seq int }
+type fkTok struct {
+	id  string
+	seq int
+}
 type fkFed struct {
 	pb  *pbbstream.Block
 	tok *fkTok
